@@ -431,7 +431,7 @@ pub fn def() -> PropDef {
         strata: vec![
             Stratum { name: "req_sequences", quick: 126 * 60, thorough: 126 * 2000, exhaustive: (true, true), run: req_sequences, what: "all 126 call sequences <= 6 on REQ (first 126 cases undisturbed), then under random transport" },
             Stratum { name: "rep_sequences", quick: 126 * 60, thorough: 126 * 2000, exhaustive: (true, true), run: rep_sequences, what: "all 126 call sequences <= 6 on REP with two pipelining partners" },
-            Stratum { name: "concurrent", quick: 40_000, thorough: 1_500_000, exhaustive: (false, false), run: concurrent, what: "1..4 concurrent clients against one REP" },
+            Stratum { name: "concurrent", quick: 100_000, thorough: 1_500_000, exhaustive: (false, false), run: concurrent, what: "1..4 concurrent clients against one REP" },
         ],
     }
 }
